@@ -79,6 +79,10 @@ func (dc *dataChunk) AppendRecordGC(wrec *WriteRecord) (offset uint32, err error
 }
 
 func (dc *dataChunk) getDiskFileSize() uint32 {
+	// wbuf is trimmed by flush under the chunk lock; a GC request resolving its
+	// range concurrently would otherwise index an already emptied slice
+	dc.Lock()
+	defer dc.Unlock()
 	if len(dc.wbuf) > 0 {
 		return dc.wbuf[0].pos.Offset
 	}
